@@ -312,12 +312,18 @@ def _check_comparison_listens(check, an: Analysis):
     check.instance('W', 'Tracked.__add_listener__', any(
         'self._listeners' in ast.unparse(n) and addl.node.args.args[1].arg in ast.unparse(n)
         for n in adds), where_fn(addl), 'the listener is recorded in `_listeners`')
+    check_comparison_truth(check, an, 'W')
+    check.floor('W', 7)
+
+
+def check_comparison_truth(check, an: Analysis, rule: str):
+    """the truth of a comparison is computed from the current values whenever it is asked
+    for (never remembered from an earlier look)"""
     boolm = an.method(COMPARISON, '__bool__')
     returns = [n for n in ast.walk(boolm.node) if isinstance(n, ast.Return)]
-    check.instance('W', 'AsyncComparison.__bool__==_test', len(returns) == 1 and
+    check.instance(rule, 'AsyncComparison.__bool__==_test', len(returns) == 1 and
                    ast.unparse(returns[0].value) == 'self._test()', where_fn(boolm),
                    'the truth value and the wake-up test are the same predicate')
-    check.floor('W', 7)
 
 
 def _all_listeners_told(an: Analysis, callee, stmt) -> bool:
@@ -518,15 +524,36 @@ def check_subscription_paired(check, an: Analysis, rule: str):
             # ... or a context manager object: what __enter__ subscribed is what every way
             # through __exit__ unsubscribes, handed over in attributes of the object
             verdict, n = _manager_pairs(an, sub)
-    for path in [p for gen in generators for p in an.paths(gen)]:
-        subs = [e for e in path.events if is_call_to(e, '__subscribe__')
-                and e.get('exit') == 'normal']
-        unsubs = [e for e in path.events if is_call_to(e, '__unsubscribe__')]
-        if subs:
-            n += 1
-            same = len(unsubs) == 1 and [ast.unparse(a) for a in unsubs[0].node.args] == \
-                [ast.unparse(a) for a in subs[0].node.args]
-            verdict &= same
+    n_fresh, stale = 0, None
+    for gen in generators:
+        for path in an.paths(gen):
+            subs = [(i, e) for i, e in enumerate(path.events)
+                    if is_call_to(e, '__subscribe__') and e.get('exit') == 'normal']
+            unsubs = [e for e in path.events if is_call_to(e, '__unsubscribe__')]
+            if subs:
+                n += 1
+                same = len(unsubs) == 1 and [ast.unparse(a) for a in unsubs[0].node.args] \
+                    == [ast.unparse(a) for a in subs[0][1].node.args]
+                verdict &= same
+            # every subscription has a signal made for it: one that was delivered (and
+            # revoked) in an earlier round would make the next delivery a dead letter
+            frame = Frame(gen.fn, gen.recv)
+            for index, event in subs:
+                if not isinstance(event.node, ast.Call) or len(event.node.args) < 2:
+                    continue
+                n_fresh += 1
+                made = rules.value_expr(path, index, event.node.args[1])
+                fresh = isinstance(made, ast.Call) and any(
+                    term[0] == 'cls' and an.p.is_subclass(term[1], CORE_INTERRUPT)
+                    for term in an.te.expr_type(made.func, frame))
+                if not fresh:
+                    stale = stale or (path, index)
+    if generators:
+        check.instance(rule, 'Notification.__subscription__:signal-of-its-own',
+                       stale is None and n_fresh > 0, where_fn(sub.fn),
+                       'the signal subscribed is an Interrupt constructed for this '
+                       'subscription (%d subscriptions on paths)' % n_fresh,
+                       path=rules.path_lines(*stale) if stale else None, analysed=n_fresh)
     check.instance(rule, 'Notification.__subscription__:paired', verdict and n > 0,
                    where_fn(sub.fn), 'subscribe(task, wake_up) is undone by '
                    'unsubscribe(task, wake_up) on each of %d paths' % n, analysed=n)
@@ -990,4 +1017,8 @@ def _check_algebra(check, an: Analysis, classes):
     # a comparison of the clock with a date is a condition *object* for that date: its
     # truth follows the clock afterwards (shared with C01)
     c01.check_time_operators(check, an, 'B')
+    # a time condition trusts that its one wake-up means the date is reached: the loop
+    # queues it under the date as given, a date of 0 included (rules shared with C01)
+    c01.check_schedule_keys(check, an, 'B')
+    c01._check_optional_dates(check, an, 'B')
     check.floor('B', 30)
